@@ -41,7 +41,24 @@ class LenClass:
         self.seeded = set(self.memo)
         self.conflicts: List[Conflict] = []
         self.positional: List = []     # (node, class): slice / integer index along a per-event axis
+        self.batch_reductions: List = []   # (node, class, reducer): reduction along the event axis of a transposed array
         self._busy = set()
+
+    @staticmethod
+    def _transposed(c):
+        """class of x.T: the event axis moves from the first to the last axis and back (for a 1-D array the two
+        coincide; ("ROWS", c) combines with c like c itself)"""
+        if c[0] == "ROWS":
+            return c[1]
+        if is_def(c):
+            return ("ROWS", c)
+        return c
+
+    @staticmethod
+    def _first_last(a, b):
+        v = sorted(x.attr if x.op == "Const" and isinstance(x.attr, int) else None for x in (a, b)) \
+            if all(x.op == "Const" and isinstance(x.attr, int) for x in (a, b)) else None
+        return v in ([0, 1], [-1, 0])
 
     def seed(self, n: Node, c):
         self.memo[n.id] = c
@@ -58,6 +75,8 @@ class LenClass:
             return "table"
         if c[0] == "SEL":
             return f"{self.show(c[1])}[mask#{c[2]}]"
+        if c[0] == "ROWS":
+            return f"{self.show(c[1])} along the last axis"
         return str(c)
 
     # ------------------------------------------------------------------
@@ -72,8 +91,14 @@ class LenClass:
             return a
         if a[0] == "TOP" or b[0] == "TOP":
             return TOP
+        # ("ROWS", c): the event axis is the last one (x.T of an events-by-k array, rand(k, N)); a 1-D per-event
+        # array of the same population broadcasts along that axis
+        if a[0] == "ROWS" and b == a[1]:
+            return a
+        if b[0] == "ROWS" and a == b[1]:
+            return b
         if a[0] == "TAB" or b[0] == "TAB":
-            return a if is_def(a) else b
+            return a if is_def(a) or a[0] == "ROWS" else b
         if node is not None:
             self.conflicts.append(Conflict(node, a, b, what))
         return TOP
@@ -182,6 +207,10 @@ class LenClass:
                 return cb
             if cb == S:
                 return ca
+            if (ca[0] == "ROWS" and ca[1] == cb and is_def(cb)) or (cb[0] == "ROWS" and cb[1] == ca and is_def(ca)):
+                at = n if n.fn is not None else (a if ca[0] == "ROWS" else b)
+                self.conflicts.append(Conflict(at, ca, cb, "the alternatives of a decision place the event axis "
+                                                           "differently (one is the transpose of the other)"))
             return TOP
         if op == "Elem":
             c = self.of(n.args[0])
@@ -269,7 +298,9 @@ class LenClass:
                 return self.of(seq)
             return TOP
         if op == "Attr":
-            if n.attr in ("T", "real", "imag", "value", "data"):
+            if n.attr == "T":
+                return self._transposed(self.of(n.args[0]))
+            if n.attr in ("real", "imag", "value", "data"):
                 return self.of(n.args[0])
             if n.attr in ("size", "shape", "ndim", "dtype"):
                 return S
@@ -287,6 +318,10 @@ class LenClass:
                 if c is not None and is_def(c):
                     return c
                 return TOP
+            if name == "transpose" and len(n.args) == 1:
+                return self._transposed(self.of(n.args[0]))
+            if name == "swapaxes" and len(n.args) == 3 and self._first_last(n.args[1], n.args[2]):
+                return self._transposed(self.of(n.args[0]))
             if name in ("transform_to", "separation"):
                 return self._joinall(n.args, n, "astropy acts element-wise on time arrays")
             if name in ("sum", "mean", "min", "max", "std", "var", "any", "all", "item"):
@@ -362,9 +397,20 @@ class LenClass:
                 if shp.op == "Cfg":
                     return ("EV", ("count", shp.id))
             return TOP
+        if short == "transpose" and len(pos) == 1 and not kws:
+            return self._transposed(self.of(pos[0]))
+        if short == "swapaxes" and len(pos) == 3 and self._first_last(pos[1], pos[2]):
+            return self._transposed(self.of(pos[0]))
         if short in X.REDUCE:
             ax = kws.get("axis") or (pos[1] if len(pos) > 1 and short not in ("percentile", "quantile") else None)
             if ax is None:
+                return S
+            c0 = self.of(pos[0]) if pos else TOP
+            if c0[0] == "ROWS" and ax.op == "Const" and isinstance(ax.attr, int):
+                if ax.attr == 0:
+                    return c0[1]            # over the components: one value per event
+                if is_def(c0[1]):
+                    self.batch_reductions.append((n, c0[1], short))
                 return S
             if ax.op == "Const" and isinstance(ax.attr, int) and ax.attr != 0:
                 return self.of(pos[0]) if pos else TOP     # row-wise reduction keeps the event axis
